@@ -41,7 +41,15 @@ func vPinned(form int, lits [][]byte, k []byte) bool {
 // VH_C18_L1: the plan of a pinning atom stays inside the pinned region and has the named kind.
 func VH_C18_L1(form, lmax int) {
 	op := vMakeOperand(form, "a", 0, lmax, vLitAlpha)
-	vAssume(op.wellFormed)
+	inverted := false
+	if form == 6 {
+		// a BETWEEN whose lower boundary is above the upper one pins nothing: it must read
+		// nothing; equal boundaries are refused at evaluation and left out
+		vAssume(vNot(bytes.Equal(op.lits[0], op.lits[1])))
+		inverted = !op.wellFormed // forks
+	} else {
+		vAssume(op.wellFormed)
+	}
 	q := "select * where " + op.text
 	o := NewOptimizer(q)
 	vAssert(o.init() == nil, "harness/C18-L1-query-rejected")
@@ -60,7 +68,11 @@ func VH_C18_L1(form, lmax int) {
 			vAssert(kind == 3, "C18/L1-literal-prefix-uses-prefix-scan")
 		}
 	case 6:
-		vAssert(kind == 4 || kind == 2, "C18/L1-literal-range-uses-range-scan")
+		if inverted {
+			vAssert(kind == 1, "C18/L1-unsatisfiable-clause-reads-nothing")
+		} else {
+			vAssert(kind == 4 || kind == 2, "C18/L1-literal-range-uses-range-scan")
+		}
 	case 7:
 		if len(op.lits[0]) > 0 {
 			vAssert(kind == 4, "C18/L1-literal-range-uses-range-scan")
@@ -172,7 +184,11 @@ func VN_C18_SUFFIX(tier int) int { return len(vC18Suffixes) }
 
 func VH_C18_E2E(form, suffix, n, B, mode int) {
 	op := vMakeOperand(form, "a", 0, 1, "ab")
-	vAssume(op.wellFormed)
+	if form == 6 {
+		vAssume(vNot(bytes.Equal(op.lits[0], op.lits[1]))) // inverted boundaries included: they pin nothing
+	} else {
+		vAssume(op.wellFormed)
+	}
 	st := vSymStore(n, 0, 2, 1, 1, "ab", "xy")
 	PlanBatchSize = B
 	q := "select * where " + op.text + vC18Suffixes[suffix]
@@ -203,7 +219,7 @@ func VH_C18_E2E(form, suffix, n, B, mode int) {
 	if form >= 2 && form <= 4 {
 		vAssert(cursors == 0, "C18/E2E-equality-or-IN-opens-a-cursor")
 	}
-	if form == 0 {
+	if form == 0 || (form == 6 && !op.wellFormed) {
 		vAssert(len(st.log) == 0, "C18/E2E-unsatisfiable-clause-touches-storage")
 	}
 	vCover("drained")
